@@ -276,7 +276,7 @@ class Spelling:
             elif i == lt_field:
                 lts.append("'x")
                 ltargs.append(rng.choice(["'static", "'a"]))
-                fields.append("PhantomData<&'x u8>")
+                fields.append("PhantomData<&'x i64>")   # pointee unlike every 'a-phantom: no clash of where-clauses
             elif y["t"] == "leaf" and y["kind"] == "Phantom":
                 # two fields differing only in a lifetime make the derive's where-clauses ambiguous
                 # (E0283): at most one reference-typed phantom per struct
